@@ -3,6 +3,7 @@ package rules
 
 import (
 	"sort"
+	"strings"
 
 	"verif/internal/core"
 )
@@ -37,11 +38,29 @@ func All() []string {
 
 // Property describes what is decided for one property.
 type Property struct {
-	ID          string
-	Level       string
-	Rules       []string
+	ID    string
+	Level string
+	Rules []string
+	// Scope narrows a rule shared with other properties to the constructs this property is about:
+	// rule id -> substrings of the obligation key (any match keeps the obligation). A rule without
+	// an entry contributes all its obligations.
+	Scope       map[string][]string
 	Explanation string   // what the rules decide (the structural clauses)
 	NotDecided  []string // what is not decided: copied into evidence.assumptions
+}
+
+// InScope reports whether the obligation of the rule belongs to the property.
+func (p *Property) InScope(rule string, o core.Obligation) bool {
+	subs, ok := p.Scope[rule]
+	if !ok {
+		return true
+	}
+	for _, s := range subs {
+		if strings.Contains(o.Key, s) {
+			return true
+		}
+	}
+	return false
 }
 
 var properties = map[string]*Property{}
